@@ -249,3 +249,17 @@ package dawn
 //@   requires f != nil && f.proj != nil && f.label != nil
 //@   retassert errors-propagate: result == nil ==> err == nil
 //@   modifies heap, n_json, json_failed, n_save, saved_rerun, saved_data, saved_deps, ipos
+
+// ---------------------------------------------------------------- C12: source paths stay inside the project
+// A source or generated-file path that is accepted is lexically clean and has no leading ".."
+// element; by the documented property of path.Clean it then has no ".." element at all.
+//@ func dawn.repoSourcePath
+//@   requires absolute-package: len(pkg) >= 2
+//@   ensures confined: result.1 == nil ==> (is_clean(result.0) && result.0 != ".." && !(len(result.0) >= 3 && result.0[0] == 46 && result.0[1] == 46 && result.0[2] == 47))
+//@   ensures rejected: result.1 != nil ==> result.0 == ""
+
+//@ func dawn.sourceLabel
+//@   requires absolute-package: len(pkg) >= 2
+//@   ensures labelled: result.1 == nil ==> (result.0 != nil && result.0.Kind == "source" && result.0.Project == "")
+//@   ensures name-plain: result.1 == nil ==> (forall i: int :: 0 <= i && i < len(result.0.Name) ==> result.0.Name[i] != 47)
+//@   modifies heap
